@@ -208,9 +208,11 @@ func loopExitDecisions(hdr *ssa.BasicBlock) []string {
 // frozenSkips: the decisions after which the current element of a loop in fn can no longer reach a
 // "progress" instruction must equal the audited list (rendered by definition, conjunction chains
 // sorted, emptiness tests canonical). learnTag != "" prints candidates under SCALINT_LEARN.
+var frozenSkipsDepth = 10
+
 func frozenSkips(p *Prog, r *Report, rule, site string, fn *ssa.Function, progress func(ssa.Instruction) bool, want []string, learnTag, why string) {
 	defer func(d int, a bool) { renderDepth, renderAllocs = d, a }(renderDepth, renderAllocs)
-	renderDepth, renderAllocs = 10, true
+	renderDepth, renderAllocs = frozenSkipsDepth, true
 	got := loopSkips(fn, progress)
 	if os.Getenv("SCALINT_LEARN") != "" {
 		for _, g := range got {
